@@ -20,6 +20,12 @@ impl Clone for VerifFetcher {
 }
 
 impl VerifFetcher {
+    /// A copy that reports its events on `event_sender` instead of the original's channel.
+    pub fn clone_with_event_sender(&self, event_sender: mpsc::Sender<NetworkEvent>) -> Self {
+        let mut c = self.clone();
+        c.0.event_sender = event_sender;
+        c
+    }
     pub fn new(self_peer_id: PeerId, event_sender: mpsc::Sender<NetworkEvent>) -> Self {
         VerifFetcher(ReplicationFetcher::new(self_peer_id, event_sender))
     }
